@@ -645,11 +645,22 @@ class Session:
         except Exception as ex:  # pylint: disable=broad-except
             raise SessionAbort("alias step raised %s"
                                % type(ex).__name__) from ex
+        loaded = True
         try:
             again, okay = strict_load(dump_text(self.doc, self.knobs))
+            loaded = bool(okay)
             pre_ok = okay and snapshot.typed(again) == snapshot.typed(self.doc)
         except Exception:  # pylint: disable=broad-except
             pre_ok = False
+            loaded = False
+        if not loaded and not self.cli:
+            # C03's last clause: whatever a set does - --aliasof is one -
+            # the document must still dump to YAML the strict loader takes
+            raise Violation("C03", "alias:dump-does-not-reload",
+                            "after alias_nodes(%r, %r, anchor_name=%r) the "
+                            "document no longer reloads"
+                            % (oper["path"], oper["source"],
+                               oper.get("anchor")))
         if not pre_ok:
             raise SessionAbort("alias step left a document that does not "
                                "round-trip")
@@ -1178,6 +1189,11 @@ def gen_op(rng, tree, prop, flow=False):
         anchor = None
         if snode.anchor is None and rng.random() < 0.6:
             anchor = rng.choice(["made1", "made2", "A9"])
+            taken = sorted({n.anchor for _p, n in scal if n.anchor})
+            if taken and rng.random() < 0.3:
+                # a name the document already uses: the library must refuse
+                # it wherever that anchor lives (S03o: only in sequences)
+                anchor = rng.choice(taken)
         return {"op": "alias", "path": render(tgt, sep),
                 "source": render(src, sep), "anchor": anchor,
                 "form": "alias"}
